@@ -87,6 +87,66 @@ def s_converge(F, res):
         res.add([finding("S-CONVERGE", key2, "crates/tx3-tir/src/compile.rs", "CompiledTx equality is hand-written or missing: convergence may ignore the fee or the payload")])
 
 
+def s_latest(F, res):
+    """S-LATEST: an exit of the round loop that is not a confirmed fixed point (the give-up exit, a listed finding as such) at
+    least returns the *latest* evaluation: the variable the function returns is assigned from this round's pass result before
+    the test that gives up.  Testing the budget first and storing the candidate afterwards compiles the last round and throws
+    it away - a sequence that settles exactly in the last round allowed then comes back as the round before it."""
+    f, cfg, du, le, calls = e8_state.resolve_loop_facts(F)
+    sites = e8_state.EXIT_SITES.get(id(F)) or []
+    if not sites:
+        return
+    body = sites[0][1]
+    in_loop_calls = [bi for bi, _ in calls if bi in body]
+    if not in_loop_calls:
+        return
+    # locals on the way from the returned value back (moves, Some / Ok wrappers, unwrap, `?`)
+    THROUGH = ("std::option::Option::<T>::unwrap", "std::ops::Try::branch", "std::option::Option::<T>::expect", "std::option::Option::<T>::take")
+    P, st = set(), []
+    for bi, si, s_ in mir.stmts(f):
+        rv = s_["rv"]
+        if s_["lhs"]["l"] == 0 and not s_["lhs"]["p"] and rv["k"] == "agg" and rv.get("variant") == "Ok" and rv.get("adt", "").endswith("::Result"):
+            pl = mir.op_place(rv["ops"][0])
+            if pl is not None:
+                st.append(pl["l"])
+    while st:
+        l = st.pop()
+        if l in P:
+            continue
+        P.add(l)
+        for d in du.defs.get(l, []) + du.partial.get(l, []):
+            if d[0] == "call":
+                if (d[3].get("callee") or "") in THROUGH and d[3]["args"]:
+                    pl = mir.op_place(d[3]["args"][0])
+                    if pl is not None:
+                        st.append(pl["l"])
+                continue
+            rv = d[3]["rv"]
+            ops = [rv["op"]] if rv["k"] in ("use", "cast") else (rv["ops"] if rv["k"] == "agg" and rv.get("adt", "").split("::")[-1] in ("Option", "Result") else [])
+            if rv["k"] == "ref":
+                st.append(rv["pl"]["l"])
+            for o in ops:
+                pl = mir.op_place(o)
+                if pl is not None:
+                    st.append(pl["l"])
+    # the carried variable: assigned inside the loop as well as outside of it
+    W = set()
+    for l in P:
+        ds = du.defs.get(l, []) + du.partial.get(l, [])
+        inb = [d for d in ds if d[1] in body]
+        if inb and len(inb) < len(ds):
+            W |= {d[1] for d in inb}
+    if not W:
+        return
+    key = "tx3_resolver::resolve_tx|an exit without a confirmed fixed point returns the latest evaluation"
+    stale = [u for u, _ in sites if not any(cfg.dominates(w, u) and any(cfg.dominates(c, w) for c in in_loop_calls) for w in W)]
+    if stale:
+        res.add([finding("S-LATEST", key, where(f, f["blocks"][stale[0]]["t"].get("line")),
+                         "the loop gives up before it stores this round's evaluation: the last pass is compiled and thrown away, and the evaluation of the round before is returned")])
+    else:
+        res.add([ok("S-LATEST", key, where(f), "the returned variable is assigned from this round's pass before the test that gives up")])
+
+
 _KEEP5 = []
 ARITH_OPS = ("Add", "Sub", "Mul", "Div", "Rem", "AddWithOverflow", "SubWithOverflow", "MulWithOverflow", "Shl", "Shr", "BitAnd", "BitOr", "BitXor")
 
@@ -489,6 +549,8 @@ def run(ctx):
     res.rule("FORMULA", "the fee function's value is len * coefficient + constant + margin (configured, else the default), as a canonical symbolic form")
     res.rule("S-KIND", "fees are substituted only by Param::apply_fees under ExpectFees")
     s_converge(F, res)
+    res.rule("S-LATEST", "an exit without a confirmed fixed point returns the latest evaluation, not the one before it")
+    s_latest(F, res)
     s_feeflow(F, res)
     res.rule("S-FEEVALUE", "the fee argument reaches the template's `fees` unchanged (casts and constructors only)")
     s_feevalue(F, res)
